@@ -191,33 +191,57 @@ def _r1(ck: Checker, prog: Program):
 
 
 def _r2(ck: Checker, prog: Program):
+    """SeismicRecording3C.split: window j = (ns_j, ew_j, vt_j) of the three component splits with one window length,
+    carrying the record's orientation and meta (loop + append or comprehension)."""
+    from ..pathtable import PathTable
     m = prog.func("seismic_recording_3c.SeismicRecording3C.split")
     fq = m.qualname
-    loops = [st for st in m.node.body if isinstance(st, ast.For)]
-    if len(loops) != 1 or not (isinstance(loops[0].iter, ast.Call) and call_name(loops[0].iter) == "zip"):
-        raise AnalysisError(f"{fq}: zip loop over the component splits not found")
-    z = loops[0].iter
-    args = [unparse(a) for a in z.args]
-    want = [f"self.{c}.split(window_length_in_seconds)" for c in ("ns", "ew", "vt")]
-    if args == want and reaching(m).only_param("window_length_in_seconds", loops[0]):
-        ck.ok("C10.R2", fq, norm_key(loops[0], 120), detail="same window length for the three components")
+    R = lambda n: sp.Symbol(n, real=True)   # noqa: E731
+    SELF, WL = R("self"), R("window_length_in_seconds")
+    A = lambda a, o: sp.Function("attr_" + a)(o)   # noqa: E731
+    comp, gen, item = sp.Function("comp"), sp.Function("gen"), sp.Function("item")
+    it0 = sp.Symbol("_it0")
+    S = [sp.Function("split")(A(c, SELF), WL) for c in ("ns", "ew", "vt")]
+    want = comp(sp.Function("SeismicRecording3C")(item(it0, sp.Integer(0)), item(it0, sp.Integer(1)), item(it0, sp.Integer(2)), A("degrees_from_north", SELF), A("meta", SELF)),
+                gen(it0, sp.Function("zip")(*S)))
+    pt = PathTable(prog, m.module, unroll=True, structured=True)
+    leaves = [l for l in pt.leaves(m.node.body) if l.exit == "return"]
+    if len(leaves) != 1:
+        raise AnalysisError(f"{fq}: expected one returning path")
+    l = leaves[0]
+    got = l.value
+    loops = [e[3] for e in l.events if e[0] == "loop"]
+    if loops and not getattr(got, "func", None) == comp:
+        lp = loops[-1]
+        env0 = dict(l.snaps[id(lp)][0])
+        T0 = Translator(env=env0)
+        T0.structured = True
+        T0.unroll_comps = True
+        T0.attr_of_bound = True
+        seq = T0.tr(lp.iter)
+        tg = lp.target
+        if isinstance(tg, ast.Tuple):
+            for j, e in enumerate(tg.elts):
+                if isinstance(e, ast.Name):
+                    env0[e.id] = item(it0, sp.Integer(j))
+        elif isinstance(tg, ast.Name):
+            env0[tg.id] = it0
+        if any(isinstance(x, (ast.Break, ast.Continue, ast.If)) for x in ast.walk(lp)):
+            ck.violation("C10.R2", fq, "window construction", "the loop over the component windows can skip windows", loc=m.loc(lp))
+            return
+        sub = PathTable(prog, m.module, env=env0, unroll=True, structured=True).leaves(lp.body)
+        apps = [e for sl in sub for e in sl.events if e[0] == "call" and e[1].endswith(".append")]
+        if len(sub) == 1 and len(apps) == 1 and isinstance(apps[0][3].value.func.value, ast.Name) and str(got) == apps[0][3].value.func.value.id:
+            got = comp(apps[0][2].args[-1], gen(it0, seq))
+    got = got.replace(lambda e: getattr(getattr(e, "func", None), "__name__", "") == "cls", lambda e: sp.Function("SeismicRecording3C")(*e.args)) if hasattr(got, "replace") else got
+    if got == want:
+        ck.ok("C10.R2", fq, "window j = (ns_j, ew_j, vt_j) with the record's orientation and meta; same window length for the three components", detail=str(got)[:200])
     else:
-        ck.violation("C10.R2", fq, "component splits", f"components are split as {args}; expected {want}", loc=m.loc(loops[0]))
-    tg = [unparse(e) for e in loops[0].target.elts] if isinstance(loops[0].target, ast.Tuple) else []
-    cons = calls_in(loops[0], "SeismicRecording3C") + calls_in(loops[0], "cls")
-    good = False
-    if len(cons) == 1 and len(tg) == 3:
-        c = cons[0]
-        good = [unparse(a) for a in c.args[:3]] == tg and unparse(kwarg(c, "degrees_from_north")) == "self.degrees_from_north" \
-            and unparse(kwarg(c, "meta")) == "self.meta"
-        app = [x for x in calls_in(loops[0], "append")]
-        good = good and len(app) == 1 and any(y is c for y in ast.walk(app[0]))
-    rets = [r for r in own_nodes(m.node) if isinstance(r, ast.Return)]
-    if good and len(rets) == 1:
-        ck.ok("C10.R2", fq, norm_key(cons[0], 120), detail="window j = (ns_j, ew_j, vt_j) with the record's orientation and meta")
-    else:
-        ck.violation("C10.R2", fq, "window construction", "windows are not built from (ns_j, ew_j, vt_j) in that order with the record's orientation and meta",
-                     loc=m.loc(loops[0]))
+        ck.violation("C10.R2", fq, "window construction",
+                     f"windows are built as {got}; expected {want} (components split with the same window length, zipped in the order ns, ew, vt, "
+                     f"each window carrying the record's orientation and meta)", loc=m.loc())
+    if not reaching(m).only_param("window_length_in_seconds", m.node.body[-1]):
+        ck.violation("C10.R2", fq, "component splits", "`window_length_in_seconds` is rebound before the components are split", loc=m.loc())
 
 
 def _filter_design(ck: Checker, prog: Program):
